@@ -35,10 +35,10 @@ func isRecheckStore(in ssa.Instruction) bool {
 
 func runC07(c *Ctx) {
 	p := c.Prog
-	c.Rule("R7.1", "not done / retry without error ⇒ a recheck time is stored on every path to the return", 13)
-	c.Rule("R7.1b", "grace-wrapped Manager methods publish the remaining wait; retry=true only from the wrapper", 10)
+	c.Rule("R7.1", "not done / retry without error ⇒ a recheck time is stored on every path to the return", 8)
+	c.Rule("R7.1b", "grace-wrapped Manager methods publish the remaining wait; retry=true only from the wrapper", 8)
 	c.Rule("R7.1c", "a pending recheck becomes RequeueAfter in Reconcile", 2)
-	c.Rule("R7.2", "verified means unchanged (no early end of the grace loop)", 5)
+	c.Rule("R7.2", "verified means unchanged (no early end of the grace loop)", 3)
 	c.Rule("R7.3", "target and readiness come from the same batch context", 6)
 	c.Rule("R7.4", "UpgradeBatch guards compare the context's own current and desired values", 7)
 
